@@ -24,7 +24,8 @@ REQUIRED = {"C14": {"healthy-package": 200, "fault:duplicate": 30, "fault:defaul
                     "select:chooser-default": 50, "select:chooser-sim": 50, "select:auto-selector": 50, "select:auto-selector-unknown": 20,
                     "select:none": 30, "period-api": 200, "period-run": 60, "iteration-checked": 2000, "after-disable-silent": 100,
                     "other-modes-silent-checked": 200, "chooser-options-checked": 200, "disable-after-run-silent": 30, "disable-mid-run": 15, "reselected-between-periods": 50, "elapsed-time-checked": 500,
-                    "mode-class-imported-from-library-module": 20, "run-period-of-1ms": 5}}
+                    "mode-class-imported-from-library-module": 20, "run-period-of-1ms": 5,
+                    "fault-is-a-BaseException": 10, "falsy-mode-object-chosen": 5}}
 ASSUMPTIONS = {"C14": ["a mode class re-exported by a second module is not generated (the statement does not say whether it is found twice)",
                        "a mode class that exactly one package module imports from a module outside the package counts as 'found in the modules of the package'",
                        "with several DEFAULT modes and the FMS attached the preselected mode may be any of them",
@@ -44,6 +45,11 @@ def gen_case(rng, uid):
     nmod = rng.choice([0, 1, 2, 3, 5])
     modules = []
     names_used = []
+    stems = ["m", "m", "deploy", "jump", "happy", "stay", "drive_left", "two_ball_py", "copy", "step", "p", "y", "py_", "spy"]
+    mod_names = []
+    for mi in range(nmod):
+        st = rng.choice(stems)
+        mod_names.append(st if st not in mod_names and st != "m" else f"{st}{mi}")
     for mi in range(nmod):
         classes = []
         for ci in range(rng.choice([0, 1, 1, 2, 4])):
@@ -52,11 +58,14 @@ def gen_case(rng, uid):
             if r < 0.75:
                 c["mode_name"] = f"mode{mi}{ci}{uid}"
                 names_used.append(c["mode_name"])
+                if rng.random() < 0.12:
+                    # a mode object that is falsy (a step queue that is empty before on_enable, a class with __bool__)
+                    c["falsy"] = rng.choice(["len", "bool"])
                 c["disabled"] = rng.random() < 0.15
                 if c["disabled"] and rng.random() < 0.4:
                     c["default"] = True       # DISABLED wins: such a class is neither offered nor a default
             classes.append(c)
-        modules.append({"name": f"m{mi}", "classes": classes, "broken": None, "imports_helper_from": None})
+        modules.append({"name": mod_names[mi], "classes": classes, "broken": None, "imports_helper_from": None})
     eligible = [(m, c) for m in modules for c in m["classes"] if c["mode_name"] and not c["disabled"]]
     if eligible and rng.random() < 0.2:
         # a mode class defined in a shared library module outside the package and imported by exactly one package module
@@ -82,9 +91,14 @@ def gen_case(rng, uid):
         m = rng.choice(modules)
         if m["name"] != (modules[1]["imports_helper_from"] if len(modules) >= 2 else None):
             m["broken"] = fault
+            if fault == "import" and rng.random() < 0.3:
+                m["broken"] = "import-base"      # the import fails with a BaseException subclass (sys.exit() at module level)
             applied = "import"
     elif fault == "ctor" and eligible:
-        rng.choice(eligible)[1]["fail_ctor"] = True
+        c_ = rng.choice(eligible)[1]
+        c_["fail_ctor"] = True
+        if rng.random() < 0.3:
+            c_["fail_kind"] = "base"
         applied = "ctor"
     fms = rng.random() < 0.5
     sel = rng.choice(["chooser-default", "chooser-default", "chooser-sim", "auto-selector", "auto-selector-unknown"])
@@ -135,6 +149,8 @@ def write_package(case, root):
             src.append(f"from .{m['imports_helper_from']} import Helper")
         if m["broken"] == "import":
             src.append("raise RuntimeError('injected import failure')")
+        if m["broken"] == "import-base":
+            src.append("raise rt.Fatal('injected import failure')")
         if m["broken"] == "syntax":
             src.append("def broken(:\n    pass")
         src.append("class Helper:\n    def on_enable(self):\n        pass\n")
@@ -154,6 +170,10 @@ def write_package(case, root):
             if c["default"]:
                 src.append("    DEFAULT = True")
             src.append(f"    def __init__(self, *a, **k):\n        self.ident = {ident!r}\n        rt.ev('ctor', {ident!r}, (a, tuple(sorted(k))))")
+            if c.get("falsy") == "len":
+                src.append("    def __len__(self):\n        return 0")
+            if c.get("falsy") == "bool":
+                src.append("    def __bool__(self):\n        return False")
             for h in ("on_enable", "on_disable"):
                 src.append(f"    def {h}(self):\n        rt.ev({h!r}, {ident!r})")
             src.append(f"    def on_iteration(self, tm):\n        rt.ev('on_iteration', {ident!r}, tm)")
@@ -199,7 +219,8 @@ def analyse(case):
     if len(set(defaults)) > 1 or (len(defaults) > 1 and not dups):
         faults.add("defaults")
     healthy = {c["mode_name"]: i for i, c in ok if c["mode_name"] not in dups}
-    return {"eligible": eligible, "disabled": disabled, "faults": faults, "healthy": healthy, "dups": dups,
+    falsy = {i for i, c, _g in eligible if c.get("falsy")}
+    return {"eligible": eligible, "disabled": disabled, "faults": faults, "healthy": healthy, "dups": dups, "falsy": falsy,
             "defaults": defaults, "ctor_expected": [i for i, _, _ in eligible]}
 
 
@@ -226,9 +247,13 @@ def run_case(acc, case):
     del sel_rt.LOG[:]
     sel_rt.FAIL_CTOR.clear()
     A = analyse(case)
+    sel_rt.FAIL_KIND.clear()
     for ident, c, good in A["eligible"]:
         if not good:
             sel_rt.FAIL_CTOR.add(ident)
+            if c.get("fail_kind"):
+                sel_rt.FAIL_KIND[ident] = c["fail_kind"]
+                acc.ev("fault-is-a-BaseException")
     sim = None
     selector = None
     try:
@@ -243,9 +268,11 @@ def run_case(acc, case):
         wpilib.DriverStation.refreshData()
         wpilib.SmartDashboard.getEntry("Auto Selector").unpublish()
         exc = None
+        if any(m["broken"] == "import-base" for m in case["modules"]) and not case["missing"]:
+            acc.ev("fault-is-a-BaseException")
         try:
             selector = AutonomousModeSelector(case["pkg"])
-        except Exception as ex:  # noqa
+        except BaseException as ex:  # noqa
             exc = ex
         faults = A["faults"]
         for f in faults:
@@ -356,6 +383,8 @@ def run_case(acc, case):
                 chosen = A["healthy"].get(chosen_name) if chosen_name not in (None, "<dup>") else None
                 acc.ev("reselected-between-periods")
             del sel_rt.LOG[:]
+            if chosen is not None and chosen in A["falsy"]:
+                acc.ev("falsy-mode-object-chosen")
             if case["style"] == "api":
                 r = run_api_period(acc, case, selector, period, chosen, chosen_name, e)
             else:
